@@ -216,3 +216,484 @@ Proof.
   revert st. induction ops as [|o t IH]; intros st H; cbn [fold_left]; [assumption|].
   apply IH. destruct o; cbn [fq_step]; lia.
 Qed.
+
+(* ====================================================================== *)
+(* association-list facts *)
+Lemma aget_In_keys {A} k (l : list (Z * A)) v : aget k l = Some v -> In k (akeys l).
+Proof.
+  induction l as [|[k' v'] t IH]; cbn [aget akeys map fst In]; [discriminate|].
+  destruct (k' =? k) eqn:E; [apply Z.eqb_eq in E; auto|]. intros H. right. apply IH, H.
+Qed.
+Lemma aget_None_keys {A} k (l : list (Z * A)) : aget k l = None -> ~ In k (akeys l).
+Proof.
+  induction l as [|[k' v'] t IH]; cbn [aget akeys map fst In]; [tauto|].
+  destruct (k' =? k) eqn:E; [discriminate|]. apply Z.eqb_neq in E. intros H [H1|H1]; [congruence|].
+  apply (IH H H1).
+Qed.
+Lemma akeys_adel {A} c (l : list (Z * A)) k : In k (akeys (adel c l)) <-> In k (akeys l) /\ k <> c.
+Proof.
+  unfold adel, akeys. induction l as [|[k' v'] t IH]; cbn [filter map fst In]; [tauto|].
+  destruct (k' =? c) eqn:E; cbn [negb].
+  - apply Z.eqb_eq in E. rewrite IH. split; [tauto|]. intros [[H|H] H2]; [congruence|tauto].
+  - apply Z.eqb_neq in E. cbn [map fst In]. rewrite IH. split; [|tauto].
+    intros [H|H]; [subst; tauto|tauto].
+Qed.
+Lemma akeys_adel_NoDup {A} c (l : list (Z * A)) : NoDup (akeys l) -> NoDup (akeys (adel c l)).
+Proof.
+  unfold adel, akeys. induction l as [|[k' v'] t IH]; cbn [filter map fst]; [tauto|].
+  intros H. inversion H as [|? ? Hn Hd]; subst. destruct (negb (k' =? c)); [|apply IH, Hd].
+  cbn [map fst]. constructor; [|apply IH, Hd].
+  intros Hin. apply Hn. clear -Hin. induction t as [|[a b] t IH]; cbn [filter map fst In] in *; [tauto|].
+  destruct (negb (a =? c)); cbn [map fst In] in *; tauto.
+Qed.
+Lemma adel_length_le {A} c (l : list (Z * A)) : zlen (adel c l) <= zlen l.
+Proof. apply filter_length_le. Qed.
+Lemma akeys_aset {A} c (v : A) l k : In k (akeys (aset c v l)) <-> k = c \/ In k (akeys l).
+Proof.
+  unfold akeys. induction l as [|[k' v'] t IH]; cbn [aset map fst In]; [intuition|].
+  destruct (k' =? c) eqn:E; cbn [map fst In].
+  - apply Z.eqb_eq in E. subst. intuition.
+  - rewrite IH. intuition.
+Qed.
+Lemma akeys_aset_NoDup {A} c (v : A) l : NoDup (akeys l) -> NoDup (akeys (aset c v l)).
+Proof.
+  unfold akeys. induction l as [|[k' v'] t IH]; cbn [aset map fst]; intros H.
+  - constructor; [cbn; tauto|constructor].
+  - inversion H as [|? ? Hn Hd]; subst. destruct (k' =? c) eqn:E; cbn [map fst].
+    + apply Z.eqb_eq in E. subst. constructor; assumption.
+    + apply Z.eqb_neq in E. constructor; [|apply IH, Hd].
+      intros Hin. apply (akeys_aset c v t k') in Hin. destruct Hin as [Hin|Hin]; [congruence|].
+      apply Hn, Hin.
+Qed.
+Lemma aset_length {A} c (v : A) l : zlen (aset c v l) = if memZ c (akeys l) then zlen l else zlen l + 1.
+Proof.
+  unfold akeys. induction l as [|[k' v'] t IH]; cbn [aset map fst]; [reflexivity|].
+  unfold memZ in *. cbn [existsb]. rewrite (Z.eqb_sym c k'). destruct (k' =? c) eqn:E; cbn [orb].
+  - rewrite !zlen_cons. reflexivity.
+  - rewrite !zlen_cons, IH. destruct (existsb (Z.eqb c) (map fst t)); lia.
+Qed.
+Lemma aget_aset {A} k c (v : A) l : aget k (aset c v l) = if c =? k then Some v else aget k l.
+Proof.
+  induction l as [|[k' v'] t IH]; cbn [aset aget]; [reflexivity|].
+  destruct (k' =? c) eqn:E; cbn [aget].
+  - apply Z.eqb_eq in E. subst. destruct (c =? k); reflexivity.
+  - rewrite IH. destruct (k' =? k) eqn:E2; [|reflexivity].
+    apply Z.eqb_eq in E2. subst. rewrite Z.eqb_sym, E. reflexivity.
+Qed.
+Lemma aget_adel {A} k c (l : list (Z * A)) : aget k (adel c l) = if c =? k then None else aget k l.
+Proof.
+  unfold adel. induction l as [|[k' v'] t IH]; cbn [filter aget fst]; [destruct (c =? k); reflexivity|].
+  destruct (k' =? c) eqn:E; cbn [negb aget].
+  - apply Z.eqb_eq in E. subst. rewrite IH. destruct (c =? k); reflexivity.
+  - rewrite IH. destruct (k' =? k) eqn:E2; [|reflexivity].
+    apply Z.eqb_eq in E2. subst. rewrite Z.eqb_sym, E. reflexivity.
+Qed.
+
+(* ====================================================================== *)
+(* 8. jitter-buffer interceptor *)
+Definition jb_pop_ok (st : jb) (s : Z) : bool :=
+  let head := if negb (jb_ready st) && (zlen (jb_q st) =? 0) then s else jb_head st in
+  let q1 := s :: jb_q st in
+  let em := jb_emitting st || ((zlen q1 >=? jb_min st) && negb (jb_emitting st)) in
+  if em then memZ head q1 else true.
+Fixpoint jb_all_ok (st : jb) (l : list Z) : bool :=
+  match l with [] => true | s :: t => jb_pop_ok st s && jb_all_ok (jb_read st s) t end.
+Lemma jb_read_min st s : jb_min (jb_read st s) = jb_min st.
+Proof. unfold jb_read. repeat match goal with |- context [if ?c then _ else _] => destruct c end; reflexivity. Qed.
+Lemma jb_read_ok_bound st s : jb_pop_ok st s = true -> zlen (jb_q st) < jb_min st ->
+  zlen (jb_q (jb_read st s)) < jb_min st.
+Proof.
+  unfold jb_pop_ok, jb_read. intros Hok Hlt.
+  set (head := if negb (jb_ready st) && (zlen (jb_q st) =? 0) then s else jb_head st) in *.
+  destruct (jb_emitting st) eqn:Em; cbn [orb negb andb] in *.
+  - rewrite Hok. cbn [jb_q]. apply memZ_In in Hok. rewrite remove1_length by assumption. rewrite zlen_cons. lia.
+  - rewrite andb_true_r in *. destruct (zlen (s :: jb_q st) >=? jb_min st) eqn:G.
+    + rewrite Hok. cbn [jb_q]. apply memZ_In in Hok. rewrite remove1_length by assumption. rewrite zlen_cons. lia.
+    + cbn [jb_q]. lia.
+Qed.
+Lemma jb_bounded_ok l : forall st, jb_all_ok st l = true -> zlen (jb_q st) < jb_min st ->
+  zlen (jb_q (fold_left jb_read l st)) < jb_min st.
+Proof.
+  induction l as [|s t IH]; intros st Hok Hlt; cbn [fold_left]; [assumption|].
+  cbn [jb_all_ok] in Hok. apply andb_true_iff in Hok. destruct Hok as [H1 H2].
+  rewrite <- (jb_read_min st s). apply IH; [assumption|]. rewrite jb_read_min. apply jb_read_ok_bound; assumption.
+Qed.
+Lemma jb_stuck l : forall st, jb_emitting st = true -> jb_ready st = true -> ~ In (jb_head st) (jb_q st) ->
+  (forall s, In s l -> s <> jb_head st) ->
+  zlen (jb_q (fold_left jb_read l st)) = zlen (jb_q st) + zlen l.
+Proof.
+  induction l as [|s t IH]; intros st Em Rd Hn Hl; cbn [fold_left]; [rewrite zlen_nil; lia|].
+  assert (Hs : s <> jb_head st) by (apply Hl; left; reflexivity).
+  assert (E : jb_read st s = {| jb_q := s :: jb_q st; jb_emitting := true; jb_ready := true;
+                               jb_head := jb_head st; jb_min := jb_min st |}).
+  { unfold jb_read. rewrite Em, Rd. cbn [negb andb orb].
+    assert (M : memZ (jb_head st) (s :: jb_q st) = false).
+    { apply memZ_false. intros [H|H]; [congruence|tauto]. }
+    rewrite M. reflexivity. }
+  rewrite E. rewrite IH; cbn [jb_q jb_emitting jb_ready jb_head]; try reflexivity.
+  - rewrite !zlen_cons. lia.
+  - intros [H|H]; [congruence|tauto].
+  - intros x Hx. apply Hl. right. assumption.
+Qed.
+
+(* ====================================================================== *)
+(* 2. rtp buffer *)
+Definition rb_inv (st : rb) : Prop := NoDup (rb_occ st) /\ forall q, In q (rb_occ st) -> 0 <= q < rb_size st.
+Lemma rb_add_size st s : rb_size (rb_add st s) = rb_size st.
+Proof. unfold rb_add. repeat match goal with |- context [if ?c then _ else _] => destruct c end; reflexivity. Qed.
+Lemma rb_add_inv st s : 0 < rb_size st -> rb_inv st -> rb_inv (rb_add st s).
+Proof.
+  intros Hs [Hn Hr].
+  assert (Hset : forall occ, NoDup occ -> (forall q, In q occ -> 0 <= q < rb_size st) ->
+             NoDup (addset (s mod rb_size st) occ) /\
+             (forall q, In q (addset (s mod rb_size st) occ) -> 0 <= q < rb_size st)).
+  { intros occ H1 H2. split; [apply addset_NoDup, H1|]. intros q Hq. apply addset_In in Hq.
+    destruct Hq as [->|Hq]; [apply Z.mod_pos_bound; assumption|apply H2, Hq]. }
+  unfold rb_add. destruct (negb (rb_started st)); [apply Hset; assumption|].
+  destruct (sub16 s (rb_highest st) =? 0); [split; assumption|].
+  destruct (sub16 s (rb_highest st) <? 32768).
+  - unfold rb_inv; cbn [rb_occ rb_size]. apply Hset.
+    + destruct (_ =? 1); [assumption|apply NoDup_filter, Hn].
+    + intros q Hq. destruct (_ =? 1); [apply Hr, Hq|]. apply filter_In in Hq. apply Hr, Hq.
+  - destruct (sub16 (rb_highest st) s >=? rb_size st); [split; assumption|].
+    unfold rb_inv; cbn [rb_occ rb_size]. apply Hset; assumption.
+Qed.
+Lemma rb_bounded size seqs : 0 < size ->
+  zlen (rb_occ (fold_left rb_add seqs (rb_init size))) <= size.
+Proof.
+  intros Hs.
+  assert (H : rb_inv (rb_init size) /\ rb_size (rb_init size) = size).
+  { split; [split; [constructor|cbn; tauto]|reflexivity]. }
+  revert H. generalize (rb_init size). induction seqs as [|s t IH]; cbn [fold_left]; intros st [Hi Hz].
+  - destruct Hi as [Hn Hr]. rewrite Hz in Hr. pose proof (NoDup_range_length _ 0 size Hn Hr). lia.
+  - apply IH. split; [apply rb_add_inv; [lia|assumption]|rewrite rb_add_size; assumption].
+Qed.
+
+(* ====================================================================== *)
+(* 6. rfc8888 stream log *)
+Definition sl_inv (st : sl) : Prop :=
+  NoDup (sl_keys st) /\ forall k, In k (sl_keys st) -> sl_init st = true /\ sl_next st <= k <= sl_last st.
+Lemma sl_add_inv st s : sl_inv st -> sl_inv (sl_add st s).
+Proof.
+  intros [Hn Hr]. unfold sl_add. destruct (unwrap (sl_uw st) s) as [uw u].
+  set (next := if sl_init st then sl_next st else u).
+  destruct (u <? next) eqn:E.
+  - split; cbn [sl_keys sl_next sl_last sl_init]; [assumption|]. intros k Hk. specialize (Hr k Hk).
+    subst next. destruct Hr as [Hi Hr]. rewrite Hi in *. split; [reflexivity|lia].
+  - split; cbn [sl_keys sl_next sl_last sl_init]; [apply addset_NoDup, Hn|]. intros k Hk. apply addset_In in Hk.
+    subst next. split; [reflexivity|]. destruct Hk as [->|Hk].
+    + destruct (sl_last st <? u) eqn:G; destruct (sl_init st); lia.
+    + specialize (Hr k Hk). destruct Hr as [Hi Hr]. rewrite Hi in *. destruct (sl_last st <? u) eqn:G; lia.
+Qed.
+Lemma sl_add_growth st s : zlen (sl_keys (sl_add st s)) <= zlen (sl_keys st) + 1.
+Proof.
+  unfold sl_add. destruct (unwrap (sl_uw st) s) as [uw u]. destruct (u <? _); cbn [sl_keys]; [lia|].
+  apply addset_length_le.
+Qed.
+Lemma sl_advance_ok fuel : forall next keys last,
+  NoDup keys -> (forall k, In k keys -> next <= k <= last) ->
+  let r := sl_advance fuel next keys in
+  NoDup (snd r) /\ (forall k, In k (snd r) -> fst r <= k <= last) /\ zlen (snd r) <= zlen keys.
+Proof.
+  induction fuel as [|f IH]; intros next keys last Hn Hr; cbn [sl_advance]; cbv zeta.
+  - cbn [fst snd]. repeat split; try assumption; try apply Hr; try assumption; lia.
+  - destruct (memZ next keys) eqn:E.
+    + specialize (IH (next + 1) (delset next keys) last (delset_NoDup _ _ Hn)).
+      cbv zeta in IH. destruct IH as [H1 [H2 H3]].
+      { intros k Hk. apply delset_In in Hk. destruct Hk as [Hk Hne]. specialize (Hr k Hk). lia. }
+      repeat split; try assumption; try apply H2; try assumption.
+      pose proof (delset_length_le next keys). lia.
+    + cbn [fst snd]. repeat split; try assumption; try apply Hr; try assumption; lia.
+Qed.
+Lemma sl_report_inv st m : sl_inv st -> sl_inv (sl_report st m) /\ zlen (sl_keys (sl_report st m)) <= zlen (sl_keys st).
+Proof.
+  intros [Hn Hr]. unfold sl_report. destruct (sl_keys st) as [|k0 kt] eqn:Ek; [split; [split; rewrite ?Ek; assumption|rewrite Ek; lia]|].
+  assert (Hi : sl_init st = true) by (apply (Hr k0); left; reflexivity).
+  rewrite <- Ek in *. clear Ek k0 kt.
+  assert (Hr' : forall k, In k (sl_keys st) -> sl_next st <= k <= sl_last st) by (intros k Hk; apply Hr, Hk).
+  destruct (sl_last st - sl_next st + 1 >? m) eqn:G.
+  - set (nn := sl_last st - m + 1).
+    set (keys1 := filter (fun k => negb (k <? nn)) (sl_keys st)).
+    pose proof (sl_advance_ok (S (length keys1)) nn keys1 (sl_last st)) as A. cbv zeta in A.
+    destruct (sl_advance (S (length keys1)) nn keys1) as [next2 keys2]. cbn [fst snd] in A.
+    destruct A as [A1 [A2 A3]].
+    { apply NoDup_filter, Hn. }
+    { intros k Hk. apply filter_In in Hk. destruct Hk as [Hk Hge]. specialize (Hr' k Hk). lia. }
+    split; [split; cbn [sl_keys sl_next sl_last sl_init]; [assumption|intros k Hk; split; [assumption|apply A2, Hk]]|].
+    cbn [sl_keys].
+    pose proof (filter_length_le (fun k => negb (k <? nn)) (sl_keys st)). fold keys1 in H. lia.
+  - pose proof (sl_advance_ok (S (length (sl_keys st))) (sl_next st) (sl_keys st) (sl_last st) Hn Hr') as A.
+    cbv zeta in A. destruct (sl_advance _ _ _) as [next2 keys2]. cbn [fst snd] in A. destruct A as [A1 [A2 A3]].
+    split; [split; cbn [sl_keys sl_next sl_last sl_init]; [assumption|intros k Hk; split; [assumption|apply A2, Hk]]|].
+    cbn [sl_keys]. assumption.
+Qed.
+Lemma sl_report_bound st m : sl_inv st -> zlen (sl_keys (sl_report st m)) <= Z.max m 0.
+Proof.
+  intros [Hn Hr]. unfold sl_report. destruct (sl_keys st) as [|k0 kt] eqn:Ek; [rewrite Ek, zlen_nil; lia|].
+  rewrite <- Ek in *. clear Ek k0 kt.
+  assert (Hr' : forall k, In k (sl_keys st) -> sl_next st <= k <= sl_last st) by (intros k Hk; apply Hr, Hk).
+  destruct (sl_last st - sl_next st + 1 >? m) eqn:G.
+  - set (nn := sl_last st - m + 1).
+    set (keys1 := filter (fun k => negb (k <? nn)) (sl_keys st)).
+    assert (B1 : NoDup keys1) by (apply NoDup_filter, Hn).
+    assert (B2 : forall k, In k keys1 -> nn <= k < nn + m).
+    { intros k Hk. apply filter_In in Hk. destruct Hk as [Hk Hge]. specialize (Hr' k Hk). lia. }
+    pose proof (NoDup_range_length keys1 nn m B1 B2) as B3.
+    pose proof (sl_advance_ok (S (length keys1)) nn keys1 (sl_last st) B1) as A. cbv zeta in A.
+    destruct (sl_advance (S (length keys1)) nn keys1) as [next2 keys2]. cbn [fst snd] in A.
+    destruct A as [A1 [A2 A3]].
+    { intros k Hk. specialize (B2 k Hk). lia. }
+    cbn [sl_keys]. lia.
+  - pose proof (sl_advance_ok (S (length (sl_keys st))) (sl_next st) (sl_keys st) (sl_last st) Hn Hr') as A.
+    cbv zeta in A. destruct (sl_advance _ _ _) as [next2 keys2]. cbn [fst snd] in A. destruct A as [A1 [A2 A3]].
+    cbn [sl_keys].
+    assert (B2 : forall k, In k (sl_keys st) -> sl_next st <= k < sl_next st + (sl_last st - sl_next st + 1)).
+    { intros k Hk. specialize (Hr' k Hk). lia. }
+    pose proof (NoDup_range_length _ _ _ Hn B2). lia.
+Qed.
+Lemma sl_run_inv ops : sl_inv (fold_left sl_step ops sl_init_st).
+Proof.
+  assert (H : sl_inv sl_init_st) by (split; [constructor|cbn; tauto]).
+  revert H. generalize sl_init_st. induction ops as [|o t IH]; cbn [fold_left]; intros st H; [assumption|].
+  apply IH. destruct o; cbn [sl_step]; [apply sl_add_inv, H|apply sl_report_inv, H].
+Qed.
+
+(* ====================================================================== *)
+(* 9. stats interceptor: Unbind does not remove the recorder *)
+Fixpoint si_churn (a : Z) (n : nat) : list si_op :=
+  match n with O => [] | S k => SiBind a :: SiUnbind a :: si_churn (a + 1) k end.
+Lemma si_churn_grows n : forall a st, (forall k, In k (si_recorders st) -> k < a) ->
+  si_bound st = [] ->
+  let st' := fold_left si_step (si_churn a n) st in
+  zlen (si_recorders st') = zlen (si_recorders st) + Z.of_nat n /\ si_bound st' = [].
+Proof.
+  induction n as [|n IH]; intros a st Hlt Hb; cbn [si_churn fold_left]; cbv zeta; [split; [lia|assumption]|].
+  cbn [si_step si_bound si_recorders].
+  match goal with |- context [fold_left si_step _ ?x] => set (st1 := x) end.
+  assert (Hm : memZ a (si_recorders st) = false).
+  { apply memZ_false. intros H. specialize (Hlt a H). lia. }
+  assert (Hb1 : si_bound st1 = []).
+  { subst st1. cbn [si_bound]. rewrite Hb. unfold addset, delset. cbn. rewrite Z.eqb_refl. reflexivity. }
+  assert (Hr1 : forall k, In k (si_recorders st1) -> k < a + 1).
+  { subst st1. cbn [si_recorders]. intros k Hk. apply addset_In in Hk.
+    destruct Hk as [->|Hk]; [lia|]. specialize (Hlt k Hk). lia. }
+  destruct (IH (a + 1) st1 Hr1 Hb1) as [I1 I2]. split; [|assumption].
+  rewrite I1. subst st1. cbn [si_recorders]. unfold addset. rewrite Hm, zlen_cons. lia.
+Qed.
+
+(* ====================================================================== *)
+(* 9b. flexfec encoder *)
+Definition ff_inv (numMedia : Z) (st : list (Z * Z)) : Prop := forall s b, aget s st = Some b -> 0 <= b < numMedia.
+Lemma ff_step_inv numMedia st o : 1 <= numMedia -> ff_inv numMedia st -> ff_inv numMedia (ff_step numMedia st o).
+Proof.
+  intros Hm H. destruct o as [s|s|s]; cbn [ff_step]; intros k b.
+  - rewrite aget_aset. destruct (s =? k); [intros E; inversion E; lia|apply H].
+  - rewrite aget_adel. destruct (s =? k); [discriminate|apply H].
+  - destruct (aget s st) as [b0|] eqn:E; [|apply H].
+    rewrite aget_aset. destruct (s =? k); [|apply H]. specialize (H s b0 E).
+    intros E2. inversion E2. destruct (b0 + 1 =? numMedia) eqn:G; lia.
+Qed.
+Lemma ff_bounded numMedia ops : 1 <= numMedia -> ff_inv numMedia (fold_left (ff_step numMedia) ops []).
+Proof.
+  intros Hm. assert (H : ff_inv numMedia []) by (intros s b; cbn; discriminate).
+  revert H. generalize (@nil (Z * Z)). induction ops as [|o t IH]; cbn [fold_left]; intros st H; [assumption|].
+  apply IH, ff_step_inv; assumption.
+Qed.
+Lemma ff_zero_grows n : forall st s b, aget s st = Some b -> 0 <= b ->
+  aget s (fold_left (ff_step 0) (repeat (FfWrite s) n) st) = Some (b + Z.of_nat n).
+Proof.
+  induction n as [|n IH]; intros st s b E Hb; cbn [repeat fold_left]; [rewrite E; f_equal; lia|].
+  cbn [ff_step]. rewrite E. destruct (b + 1 =? 0) eqn:G; [lia|].
+  rewrite (IH _ s (b + 1)); [f_equal; lia| |lia]. rewrite aget_aset, Z.eqb_refl. reflexivity.
+Qed.
+
+(* ====================================================================== *)
+(* 12. rtpfb history: every packet record has a counter in [nextReport, counter) *)
+Definition h_inv (st : hist) : Prop :=
+  NoDup (akeys (h_packets st)) /\ (forall k, In k (akeys (h_packets st)) -> h_next st <= k < h_counter st) /\
+  h_next st <= h_counter st.
+(* weaker invariant used inside buildReport's loop: records below the scan position are gone *)
+Definition h_scan (lo : Z) (st : hist) : Prop :=
+  NoDup (akeys (h_packets st)) /\ (forall k, In k (akeys (h_packets st)) -> lo <= k < h_counter st) /\
+  h_next st <= lo /\ h_next st <= h_counter st.
+Lemma h_delete_keys st c p k : In k (akeys (h_packets (h_delete st c p))) <-> In k (akeys (h_packets st)) /\ k <> c.
+Proof. cbn [h_delete h_packets]. apply akeys_adel. Qed.
+Lemma h_report_one_scan st i : h_scan i st -> h_scan (i + 1) (h_report_one st i).
+Proof.
+  intros [Hn [Hr [Hl Hc]]]. unfold h_report_one. destruct (aget i (h_packets st)) as [p|] eqn:E.
+  - pose proof (aget_In_keys _ _ _ E) as Hin. specialize (Hr i Hin) as Hi.
+    assert (Hd : h_scan (i + 1) (h_set_next (h_delete st i p) (i + 1))).
+    { split; [|split; [|split]]; cbn [h_set_next h_delete h_packets h_next h_counter].
+      - apply akeys_adel_NoDup, Hn.
+      - intros k Hk. apply akeys_adel in Hk. destruct Hk as [Hk Hne]. specialize (Hr k Hk). lia.
+      - lia.
+      - lia. }
+    cbn [h_delete h_next] in *. destruct (i >=? h_next st) eqn:G; [exact Hd|lia].
+  - pose proof (aget_None_keys _ _ E) as Hnin.
+    split; [assumption|split; [|split; [lia|assumption]]].
+    intros k Hk. specialize (Hr k Hk). assert (k <> i) by (intros ->; tauto). lia.
+Qed.
+Lemma h_report_scan n : forall i st, h_scan i st ->
+  h_scan (i + Z.of_nat n) (fold_left h_report_one (zrange i n) st).
+Proof.
+  induction n as [|n IH]; intros i st H; cbn [zrange fold_left].
+  - replace (i + Z.of_nat 0) with i by lia. assumption.
+  - replace (i + Z.of_nat (S n)) with (i + 1 + Z.of_nat n) by lia. apply IH, h_report_one_scan, H.
+Qed.
+Lemma h_clean_one_inv st i : h_inv st -> h_inv (h_clean_one st i).
+Proof.
+  intros [Hn [Hr Hc]]. unfold h_clean_one. destruct (aget i (h_packets st)) as [p|]; [|split; [assumption|split; assumption]].
+  split; [|split]; cbn [h_delete h_packets h_next h_counter].
+  - apply akeys_adel_NoDup, Hn.
+  - intros k Hk. apply akeys_adel in Hk. apply Hr, Hk.
+  - assumption.
+Qed.
+Lemma h_clean_fold l : forall st, h_inv st -> h_inv (fold_left h_clean_one l st).
+Proof. induction l as [|i t IH]; intros st H; cbn [fold_left]; [assumption|]. apply IH, h_clean_one_inv, H. Qed.
+Lemma h_report_inv st : h_inv st -> h_inv (h_report st).
+Proof.
+  intros H. unfold h_report. destruct (h_next st >? h_hi st) eqn:G; [assumption|].
+  destruct H as [Hn [Hr Hc]].
+  assert (S0 : h_scan (h_next st) st).
+  { split; [assumption|split; [intros k Hk; apply Hr, Hk|split; [lia|assumption]]]. }
+  pose proof (h_report_scan (Z.to_nat (h_hi st - h_next st + 1)) _ _ S0) as S1.
+  set (st1 := fold_left h_report_one _ st) in *. destruct S1 as [A1 [A2 [A3 A4]]].
+  assert (I1 : h_inv st1).
+  { split; [assumption|split; [|assumption]]. intros k Hk. specialize (A2 k Hk). lia. }
+  pose proof (h_clean_fold (zrange (h_clean st1) (Z.to_nat (h_next st1 - h_clean st1))) st1 I1) as I2.
+  destruct I2 as [B1 [B2 B3]]. repeat split; cbn [h_set_clean h_packets h_next h_counter]; try assumption; apply B2; assumption.
+Qed.
+Lemma h_step_inv b st o : h_inv st -> h_inv (h_step b st o).
+Proof.
+  intros H. destruct o as [ssrc sq isTw tw|tw arrived|ssrc sq arrived|]; cbn [h_step].
+  - destruct H as [Hn [Hr Hc]]. split; [|split]; cbn [h_add h_packets h_next h_counter].
+    + apply akeys_aset_NoDup, Hn.
+    + intros k Hk. apply akeys_aset in Hk. destruct Hk as [->|Hk]; [lia|]. specialize (Hr k Hk). lia.
+    + lia.
+  - destruct (aget tw (h_tw st)); [|assumption]. unfold h_on_feedback.
+    destruct (aget z (h_packets st)); [|assumption]. destruct (arrived && _); assumption.
+  - destruct (aget (sskey ssrc sq) (h_ss st)); [|assumption]. unfold h_on_feedback.
+    destruct (aget z (h_packets st)); [|assumption]. destruct (arrived && _); assumption.
+  - apply h_report_inv, H.
+Qed.
+Lemma h_run_inv b ops : h_inv (fold_left (h_step b) ops h_init).
+Proof.
+  assert (H : h_inv h_init) by (split; [constructor|split; [cbn; tauto|cbn; lia]]).
+  revert H. generalize h_init. induction ops as [|o t IH]; cbn [fold_left]; intros st H; [assumption|].
+  apply IH, h_step_inv, H.
+Qed.
+Lemma h_bounded b ops : let st := fold_left (h_step b) ops h_init in
+  zlen (h_packets st) <= h_counter st - h_next st.
+Proof.
+  cbv zeta. destruct (h_run_inv b ops) as [Hn [Hr Hc]].
+  set (st := fold_left (h_step b) ops h_init) in *.
+  assert (Hr' : forall k, In k (akeys (h_packets st)) -> h_next st <= k < h_next st + (h_counter st - h_next st)).
+  { intros k Hk. specialize (Hr k Hk). lia. }
+  pose proof (NoDup_range_length _ _ _ Hn Hr'). unfold akeys, zlen in *. rewrite map_length in H. lia.
+Qed.
+(* without feedback every sent packet stays *)
+Lemma h_no_feedback b n : forall st, h_inv st ->
+  let st' := fold_left (h_step b) (repeat (HAdd 1 0 false 0) n) st in
+  zlen (h_packets st') = zlen (h_packets st) + Z.of_nat n.
+Proof.
+  induction n as [|n IH]; intros st H; cbn [repeat fold_left]; cbv zeta; [lia|].
+  pose proof (h_step_inv b st (HAdd 1 0 false 0) H) as H1. specialize (IH _ H1). cbv zeta in IH. rewrite IH.
+  cbn [h_step h_add h_packets]. rewrite aset_length.
+  destruct H as [Hn [Hr Hc]].
+  assert (M : memZ (h_counter st) (akeys (h_packets st)) = false).
+  { apply memZ_false. intros Hin. specialize (Hr _ Hin). lia. }
+  rewrite M. lia.
+Qed.
+
+(* ====================================================================== *)
+(* 3. NACK generator counters *)
+Definition ng_inv (size : Z) (st : ng) : Prop :=
+  forall s m, aget s (ng_logs st) = Some m -> NoDup (akeys m) /\ zlen m <= size.
+Lemma ng_count_step_ok max acc s : NoDup (akeys (fst acc)) -> 0 < max -> 0 <= snd acc ->
+  let r := ng_count_step max acc s in
+  NoDup (akeys (fst r)) /\ zlen (fst r) - snd r <= zlen (fst acc) - snd acc /\ 0 <= snd r.
+Proof.
+  destruct acc as [m c]. cbn [fst snd]. intros Hn Hm Hc. unfold ng_count_step. cbv zeta. cbn [fst snd].
+  split; [apply akeys_aset_NoDup, Hn|]. rewrite aset_length. unfold cnt.
+  destruct (memZ s (akeys m)) eqn:E.
+  - destruct (_ <? max); lia.
+  - apply memZ_false in E. destruct (aget s m) eqn:G; [exfalso; apply E; eapply aget_In_keys; eassumption|].
+    assert (0 <? max = true) by lia. rewrite H. lia.
+Qed.
+Lemma ng_count_fold max l : forall acc, NoDup (akeys (fst acc)) -> 0 < max -> 0 <= snd acc ->
+  let r := fold_left (ng_count_step max) l acc in
+  NoDup (akeys (fst r)) /\ zlen (fst r) - snd r <= zlen (fst acc) - snd acc /\ 0 <= snd r.
+Proof.
+  induction l as [|s t IH]; intros acc Hn Hm Hc; cbn [fold_left]; cbv zeta; [repeat split; try assumption; lia|].
+  pose proof (ng_count_step_ok max acc s Hn Hm Hc) as A. cbv zeta in A. destruct A as [A1 [A2 A3]].
+  specialize (IH _ A1 Hm A3). cbv zeta in IH. destruct IH as [B1 [B2 B3]]. repeat split; try assumption; lia.
+Qed.
+Lemma filter_keys_bound (m : list (Z * Z)) (missing : list Z) : NoDup (akeys m) ->
+  let m2 := filter (fun p => memZ (fst p) missing) m in NoDup (akeys m2) /\ zlen m2 <= zlen missing.
+Proof.
+  intros Hn. cbv zeta. set (m2 := filter _ m).
+  assert (N2 : NoDup (akeys m2)).
+  { subst m2. unfold akeys in *. induction m as [|[k v] t IH]; cbn [filter map fst]; [constructor|].
+    inversion Hn as [|? ? Hni Hd]; subst. destruct (memZ k missing); [|apply IH, Hd].
+    cbn [map fst]. constructor; [|apply IH, Hd]. intros Hin. apply Hni.
+    clear -Hin. induction t as [|[a b] t IH]; cbn [filter map fst In] in *; [tauto|].
+    destruct (memZ a missing); cbn [map fst In] in *; tauto. }
+  split; [assumption|].
+  assert (I : incl (akeys m2) missing).
+  { intros k Hk. subst m2. unfold akeys in Hk. apply in_map_iff in Hk. destruct Hk as [[a b] [E Hk]].
+    apply filter_In in Hk. cbn [fst] in *. subst. apply memZ_In. tauto. }
+  pose proof (NoDup_incl_zlen _ _ N2 I). unfold akeys, zlen in *. rewrite map_length in H. lia.
+Qed.
+Lemma ng_tick_inv max size st s missing : 0 <= size -> zlen missing <= size -> ng_inv size st ->
+  ng_inv size (ng_tick max st s missing).
+Proof.
+  intros Hs Hm H. unfold ng_tick. destruct (negb (memZ s (ng_bound st))); [assumption|].
+  set (m0 := match aget s (ng_logs st) with Some m => match missing with [] => [] | _ => m end | None => [] end).
+  assert (H0 : NoDup (akeys m0) /\ zlen m0 <= size).
+  { subst m0. destruct (aget s (ng_logs st)) eqn:E; [|split; [constructor|rewrite zlen_nil; lia]].
+    destruct missing; [split; [constructor|rewrite zlen_nil; lia]|apply (H s), E]. }
+  assert (Hset : forall X, NoDup (akeys X) /\ zlen X <= size ->
+            ng_inv size {| ng_bound := ng_bound st; ng_logs := aset s X (ng_logs st) |}).
+  { intros X HX k m. cbn [ng_logs]. rewrite aget_aset. destruct (s =? k); [intros E; inversion E; subst; assumption|apply H]. }
+  assert (Hdel : ng_inv size {| ng_bound := ng_bound st; ng_logs := adel s (ng_logs st) |}).
+  { intros k m. cbn [ng_logs]. rewrite aget_adel. destruct (s =? k); [discriminate|apply H]. }
+  destruct missing as [|x xs] eqn:Em; [apply Hset; split; [constructor|rewrite zlen_nil; lia]|].
+  rewrite <- Em in *. clear Em x xs.
+  destruct (max >? 0) eqn:G.
+  - destruct H0 as [N0 L0].
+    pose proof (ng_count_fold max missing (m0, 0) N0 ltac:(lia) ltac:(cbn; lia)) as A. cbv zeta in A.
+    destruct (fold_left (ng_count_step max) missing (m0, 0)) as [m1 c]. cbn [fst snd] in A. destruct A as [A1 [A2 A3]].
+    destruct (c =? 0) eqn:Ec; [apply Hset; split; [assumption|lia]|].
+    pose proof (filter_keys_bound m1 missing A1) as F. cbv zeta in F. destruct F as [F1 F2].
+    destruct (filter _ m1) eqn:Ef; [apply Hdel|]. rewrite <- Ef in *. apply Hset. split; [assumption|lia].
+  - cbn [Z.eqb]. destruct H0 as [N0 L0].
+    pose proof (filter_keys_bound m0 missing N0) as F. cbv zeta in F. destruct F as [F1 F2].
+    destruct (filter _ m0) eqn:Ef; [apply Hdel|]. rewrite <- Ef in *. apply Hset. split; [assumption|lia].
+Qed.
+Definition ng_ops_ok (size : Z) (ops : list ng_op) : Prop :=
+  Forall (fun o => match o with NgTick _ m => zlen m <= size | _ => True end) ops.
+Lemma ng_run_inv max size ops : 0 <= size -> ng_ops_ok size ops -> ng_inv size (fold_left (ng_step max) ops ng_init).
+Proof.
+  intros Hs. assert (H : ng_inv size ng_init) by (intros s m; cbn; discriminate).
+  revert H. generalize ng_init. induction ops as [|o t IH]; cbn [fold_left]; intros st H Hok; [assumption|].
+  inversion Hok as [|? ? Ho Ht]; subst. apply IH; [|assumption].
+  destruct o as [s|s|s m]; cbn [ng_step].
+  - intros k m. cbn [ng_logs]. apply H.
+  - intros k m. cbn [ng_logs]. rewrite aget_adel. destruct (s =? k); [discriminate|apply H].
+  - apply ng_tick_inv; assumption.
+Qed.
+
+(* ====================================================================== *)
+(* 10. gcc rate calculator *)
+Lemma rc_drop_head d h : match rc_drop d h with [] => True | o :: _ => d <= o end.
+Proof. induction h as [|a t IH]; cbn [rc_drop]; [exact I|]. destruct (a <? d) eqn:E; [assumption|lia]. Qed.
+Lemma rc_const_grows w a n : 0 <= w -> forall k,
+  fold_left (rc_step w) (repeat a n) (true, repeat a (S k)) = (true, repeat a (S k + n)).
+Proof.
+  intros Hw. induction n as [|n IH]; intros k; [cbn [repeat fold_left]; rewrite Nat.add_0_r; reflexivity|].
+  change (repeat a (S n)) with (a :: repeat a n). cbn [fold_left].
+  assert (E : rc_step w (true, repeat a (S k)) a = (true, repeat a (S (S k)))).
+  { unfold rc_step. cbn [negb]. rewrite <- repeat_cons. cbn [repeat rc_drop].
+    assert (a <? a - w = false) by lia. rewrite H. reflexivity. }
+  rewrite E, IH. f_equal. f_equal. lia.
+Qed.
